@@ -389,7 +389,7 @@ impl Prop for C17Prop {
         let name = v.case.get("parameter")?.as_str()?;
         if src.contains("(if ") && tokens_outside_params(src, name) {
             let strict = src.replace("(if ", "(i ");
-            match unused_report_bounded(&strict, 10) {
+            match unused_report_bounded(&strict, 30) {
                 Some(Ok(unused)) => {
                     if !unused.iter().any(|u| u == name) {
                         return Some("unused-check-loses-uses-under-if");
